@@ -53,7 +53,8 @@ def construct_packet(it, *a, **k) -> DictObj:
     if init is None:
         return new_packet(*a, **k)
     it.call(init, [d] + list(a), dict(k))
-    if "raw_data" not in d.attrs:
+    from .interp import pub
+    if pub(d, "raw_data") is None:
         d.attrs["raw_data"] = new_raw(k.get("raw_data", b""))
     return d
 
